@@ -120,7 +120,13 @@ def run(env):
     # 2b. Coq's own reading of the implementation's TEXT (Model/Layout.v) vs compile(), plus mutated texts
     layoutcorr.check(env, seeds + gen + in_ctx + exhaustive)
     # 3. oracle in both dictionary modes
-    allsrc = list(dict.fromkeys(seeds + gen + in_ctx + exhaustive))
+    # characters that Python (or textwrap / str.splitlines) treats as a line boundary or as blank space, inside every
+    # kind of string literal at indentation 0, 1 and 2 (outside the code page: the oracle alone sees them)
+    odd = ["\r", "\x0b", "\x0c", "\x1c", "\x1d", "\x1e", "\x85", "\u2028", "\u2029", "\t", "\xa0", "\r\n"]
+    odd_srcs = [pre + lit.replace("§", c) + post for c in odd
+                for lit in ("`a§b`", "`§`", "‛§z", "‛a§", "`a\\§b`")
+                for pre, post in (("", ""), ("3(", ")"), ("λ", ";"), ("3(λ⟨", "|1⟩;)"), ("v", ""), ("@f:1|", ";"))]
+    allsrc = list(dict.fromkeys(seeds + gen + in_ctx + exhaustive + odd_srcs))
     items = [(s, True) for s in allsrc] + [(s, False) for s in allsrc]
     res = V.pmap(impl_compiles, items, timeout=20)
     dist = {}
